@@ -97,6 +97,16 @@ func (rn *Runner) Run() {
 			if err = m.To(a); err == nil {
 				rcpts = []box{special}
 			}
+		case "ToThenAddTo": // the address is on the list already when further ones are added to it
+			if err = m.To(a); err == nil {
+				rcpts = []box{special}
+				if aerr := m.AddTo("second@to.test"); aerr == nil {
+					rcpts = append(rcpts, box{ints("second"), ints("to.test")})
+				}
+				if aerr := m.AddToFormat("Third Person", "third@to.test"); aerr == nil {
+					rcpts = append(rcpts, box{ints("third"), ints("to.test")})
+				}
+			}
 		case "AddCc":
 			if err = m.AddCc(a); err == nil {
 				rcpts = append(rcpts, special)
